@@ -42,12 +42,16 @@ enum Op {
     Create(u8),
     /// `git init` an untracked nested repository at `sub`
     NestedRepo,
+    /// remove and re-create the tracked directory `p/t` with identical content: it becomes the entry `read_dir(p)` yields in another
+    /// position relative to directories created earlier (tmpfs lists newest first), content and mtime stay as indexed
+    RecreateTrackedDir,
 }
 
 /// tracked paths: a (file), x (executable file), d/b (file in directory), l (symlink -> a)
 const TRACKED: &[&str] = &["a", "x", "d/b", "l"];
 /// `.gitignore` = "*.ign\nigd/\n"
-const NEW_PATHS: &[&str] = &["u", "ud/f", "d/u", "e/", "i.ign", "igd/f", "ud/j.ign", "d/k.ign", "ud/deep/g"];
+/// `p/` has no tracked file of its own, only `p/t/f`: new sub-directories before (`a`) and after (`z`) `t` must not make `p/` collapse
+const NEW_PATHS: &[&str] = &["u", "ud/f", "d/u", "e/", "i.ign", "igd/f", "ud/j.ign", "d/k.ign", "ud/deep/g", "p/a/u", "p/z/u", "p/a/", "p/z/", "p/a/i.ign"];
 
 #[derive(Serialize, Deserialize, Hash, Clone, Debug)]
 struct Case {
@@ -80,6 +84,7 @@ fn ops_alphabet() -> Vec<Op> {
         SwapLinkAndFile(3),
         Delete(3),
         NestedRepo,
+        RecreateTrackedDir,
     ];
     for i in 0..NEW_PATHS.len() {
         v.push(Create(i as u8));
@@ -109,9 +114,11 @@ fn write_tracked(root: &Path) {
     mach(std::fs::write(root.join("x"), b"xxxx\n"), "write x");
     mach(std::fs::set_permissions(root.join("x"), std::fs::Permissions::from_mode(0o755)), "chmod x");
     mach(std::fs::write(root.join("d/b"), b"bbbb\n"), "write d/b");
+    mach(std::fs::create_dir_all(root.join("p/t")), "mkdir p/t");
+    mach(std::fs::write(root.join("p/t/f"), b"ffff\n"), "write p/t/f");
     mach(std::os::unix::fs::symlink("a", root.join("l")), "symlink l");
     mach(std::fs::write(root.join(".gitignore"), b"*.ign\nigd/\n"), "write .gitignore");
-    for p in ["a", "x", "d/b", ".gitignore"] {
+    for p in ["a", "x", "d/b", "p/t/f", ".gitignore"] {
         set_mtime(&root.join(p), M0);
     }
 }
@@ -274,6 +281,16 @@ fn apply(root: &Path, op: Op) -> Result<(), &'static str> {
                 mach(std::fs::create_dir_all(p.parent().unwrap()), "mkdir");
                 mach(std::fs::write(&p, b"new\n"), "write");
             }
+        }
+        RecreateTrackedDir => {
+            let t = root.join("p/t");
+            if !t.join("f").is_file() {
+                return Err("p/t/f is gone");
+            }
+            mach(std::fs::remove_dir_all(&t), "rm -r p/t");
+            mach(std::fs::create_dir(&t), "mkdir p/t");
+            mach(std::fs::write(t.join("f"), b"ffff\n"), "write p/t/f");
+            set_mtime(&t.join("f"), M0);
         }
         NestedRepo => {
             let p = root.join("sub");
@@ -463,14 +480,14 @@ fn quick_pair_ops() -> Vec<Op> {
     use Op::*;
     vec![
         SameSizeKeepMtime(0), GrowKeepMtime(0), Touch(0), Chmod(0), Delete(0), ToDir(0), SwapLinkAndFile(0), SameSizeKeepMtime(2), Delete(2), DirToFile,
-        SwapLinkAndFile(3), NestedRepo, Create(0), Create(1), Create(3), Create(4), Create(5), Create(6),
+        SwapLinkAndFile(3), NestedRepo, Create(0), Create(1), Create(4), Create(5), Create(9), Create(11), RecreateTrackedDir,
     ]
 }
 
 /// the operations used for the longest sequences
 fn core_ops() -> Vec<Op> {
     use Op::*;
-    vec![SameSizeKeepMtime(0), Touch(0), Chmod(0), Delete(0), ToDir(0), SwapLinkAndFile(0), Delete(2), DirToFile, Create(0), Create(1), Create(4), Create(5)]
+    vec![SameSizeKeepMtime(0), Touch(0), Chmod(0), Delete(0), ToDir(0), SwapLinkAndFile(0), Delete(2), DirToFile, Create(0), Create(1), Create(4), Create(5), Create(11), RecreateTrackedDir]
 }
 
 pub fn run(run: &'static Run) {
@@ -478,7 +495,7 @@ pub fn run(run: &'static Run) {
     let alphabet = ops_alphabet();
     let core = core_ops();
     run.rule(format!(
-        "worktree with tracked a (file), x (executable), d/b, l (symlink), .gitignore ('*.ign', 'igd/'); every mutation sequence of length <= 1 over {} operations {:?} (core.checkStat default and minimal), every pair of them (thorough) or of the 18 operations of quick_pair_ops() (quick; core.checkStat=minimal, index copied) \
+        "worktree with tracked a (file), x (executable), d/b, p/t/f (directory p without tracked files of its own), l (symlink), .gitignore ('*.ign', 'igd/'); every mutation sequence of length <= 1 over {} operations {:?} (core.checkStat default and minimal), every pair of them (thorough) or of the 19 operations of quick_pair_ops() (quick; core.checkStat=minimal, index copied) \
          (Create(i) makes {:?}){}; index timestamp - indexed mtime in {{+10 s (not racy), 0 (racily clean){}}}; after the last mutation of every sequence (every prefix is a sequence of its own) \
          status is compared for showUntrackedFiles = no, normal (collapsed, ignored collapsed), all (every file, ignored matching). \
          Non-trivial = final status not clean or the sequence contains a same-size same-mtime edit.",
